@@ -58,11 +58,11 @@ fn int_case(ctx: &mut Ctx, width: usize, buf_len: Option<usize>, pushes: &[IPush
         for p in pushes {
             match p {
                 IPush::One(v) => w.push(*v),
-                IPush::ExtU8(v) => w.extend(v.iter().copied()),
-                IPush::ExtU16(v) => w.extend(v.iter().copied()),
-                IPush::ExtU32(v) => w.extend(v.iter().copied()),
-                IPush::ExtU64(v) => w.extend(v.iter().copied()),
-                IPush::ExtUsize(v) => w.extend(v.iter().copied()),
+                IPush::ExtU8(v) => if k % 2 == 0 { w.extend(v.iter().copied()) } else { w.extend(v.iter().copied().filter(|_| true)) }, // the second form has no exact size hint
+                IPush::ExtU16(v) => if k % 2 == 0 { w.extend(v.iter().copied()) } else { w.extend(v.iter().copied().filter(|_| true)) }, // the second form has no exact size hint
+                IPush::ExtU32(v) => if k % 2 == 0 { w.extend(v.iter().copied()) } else { w.extend(v.iter().copied().filter(|_| true)) }, // the second form has no exact size hint
+                IPush::ExtU64(v) => if k % 2 == 0 { w.extend(v.iter().copied()) } else { w.extend(v.iter().copied().filter(|_| true)) }, // the second form has no exact size hint
+                IPush::ExtUsize(v) => if k % 2 == 0 { w.extend(v.iter().copied()) } else { w.extend(v.iter().copied().filter(|_| true)) }, // the second form has no exact size hint
             }
         }
         let len = w.len();
